@@ -16,7 +16,9 @@ SPECIAL = {"<STR8>": "\"é\U0001F600\"", "<DOCP>": "---@param x integer", "<DOCT
 OFF_BY_DEFAULT = ["code-style-check", "incomplete-signature-doc", "missing-global-doc", "unknown-doc-tag",
                   "non-literal-expressions-in-assert"]
 CONFIGS = [("default", None, True), ("all", {"diagnostics": {"enables": OFF_BY_DEFAULT}}, True),
-           ("nosyntax", {"diagnostics": {"disable": ["syntax-error", "doc-syntax-error"]}}, False)]
+           ("nosyntax", {"diagnostics": {"disable": ["syntax-error", "doc-syntax-error"]}}, False),
+           # version-dependent lexer / parser errors; only for the uncorrupted programs of the err family
+           ("lua51", {"runtime": {"version": "Lua5.1"}}, True)]
 SUBST = {"<q>": '"', "<sq>": "'", "<bs>": "\\", "<e2>": "é"}
 PLACEHOLDER = re.compile(r"%\{[A-Za-z_][A-Za-z0-9_]*\}|\{[A-Za-z_][A-Za-z0-9_]*\}|\{\}")
 
@@ -81,6 +83,8 @@ def run(ctx):
     for text, p in progs:
         for cname, rc, syn in CONFIGS:
             if cname == "nosyntax" and len(cases) % 5:
+                continue
+            if cname == "lua51" and not (p.get("fam") == "err" and p["mut"][0] == "none"):
                 continue
             cases.append(_diag.one_file_case(len(cases), text, rc))
             meta.append((text, cname, syn, p))
@@ -149,10 +153,10 @@ def run(ctx):
     ctx.note("records_with_several_messages_at_one_error_range",
              sum(1 for r in recs if len({tuple(e) for e in r["errs"]}) > len({tuple(e[:4]) for e in r["errs"]})))
     ctx.rule("records = (program, configuration) runs of diagnose_file judged by TLC; programs are distinct texts generated by "
-             "DiagWF.tla (<= 2 library lines x LF/CRLF x every single-token drop/dup/truncation; the err family: one of 72 "
+             "DiagWF.tla (<= 2 library lines x LF/CRLF x every single-token drop/dup/truncation; the err family: one of 104 "
              "error-template lines -- invalid escapes, unfinished strings, malformed numerals, operators without operand, "
-             "stray brackets, broken statements and doc tags -- alone with every drop/dup/truncation, or next to a valid "
-             "line; thorough adds sampled 3-line programs); non-trivial = at least one diagnostic or parse error")
+             "stray brackets, broken statements and doc tags -- alone with every token drop / truncation, or next to a valid "
+             "line, also under runtime.version = Lua5.1; thorough adds sampled 3-line programs); non-trivial = at least one diagnostic or parse error")
     ctx.assume("LSP positions of the recorded parse errors and the line table are computed by the glue with the LSP 3.17 rules "
                "(UTF-16, CR/LF/CRLF); placeholder = %{name}, {name} or {} left in a message and not a verbatim piece of the program text; a parse error "
                "'appears as a diagnostic' = a syntax-error / doc-syntax-error diagnostic with the error's range and message")
